@@ -27,18 +27,15 @@ def levels(tier):
              "batch_sources": 3, "batch_targets": 1, "yield_frequencies": [50, 1]},
         ]
     return [
-        {"name": "n1-full", "shapes": [[1, 2, 2], [2, 2, 3]], "L": 1, "n": 1, "alphabet": full},
-        {"name": "n2-L2", "shapes": [[1, 2, 2]], "L": 2, "n": 2, "alphabet": full,
-         "links_batch": 1, "batch_targets": 1},
-        {"name": "recrawl3", "shapes": [[1, 2, 2], [1, 2, 3]], "L": 1, "n": 1, "prelude": [["page", 0, True]], "alphabet": ["batch", "links"],
-         "batch_sources": 3, "batch_targets": 2, "links_batch": 3, "yield_frequencies": [50, 1, 2]},
+        {"name": "n1-2shapes", "shapes": [[1, 2, 2], [2, 2, 3]], "L": 1, "n": 1, "alphabet": full},
+        {"name": "n2-L2", "shapes": [[1, 2, 2]], "L": 2, "n": 2, "alphabet": full, "links_batch": 1, "batch_targets": 1},
         {"name": "long-n3", "pools": LONG[:3], "sparse": True, "n": 3, "alphabet": ["page", "links"], "links_batch": 1},
-        {"name": "n3-writes", "shapes": [[1, 2, 2]], "L": 1, "n": 3, "alphabet": writes,
-         "links_batch": 1, "batch_targets": 1},
-        {"name": "long-n2", "pools": LONG, "sparse": True, "n": 2, "alphabet": full, "links_batch": 1, "batch_targets": 1},
-        {"name": "n2-full", "shapes": [[1, 2, 2], [2, 2, 3]], "L": 1, "n": 2, "alphabet": full},
-        {"name": "n3-full", "shapes": [[1, 2, 2]], "L": 1, "n": 3, "alphabet": full,
-         "links_batch": 1, "batch_targets": 1},
+        {"name": "long-n2-all", "pools": LONG, "sparse": True, "n": 2, "alphabet": full, "links_batch": 1, "batch_targets": 1},
+        {"name": "n3-writes", "shapes": [[1, 2, 2]], "L": 1, "n": 3, "alphabet": writes, "links_batch": 1, "batch_targets": 1},
+        {"name": "recrawl3-wide", "shapes": [[1, 2, 2]], "L": 1, "n": 1, "prelude": [["page", 0, True]], "alphabet": ["batch", "links"],
+         "batch_sources": 3, "batch_targets": 2, "links_batch": 2, "yield_frequencies": [50, 1]},
+        {"name": "n2-2shapes", "shapes": [[1, 2, 2], [2, 2, 3]], "L": 1, "n": 2, "alphabet": full},
+        {"name": "n3-4ops", "shapes": [[1, 2, 2]], "L": 1, "n": 3, "alphabet": ["page", "links", "batch", "we"], "links_batch": 1, "batch_targets": 1},
     ]
 
 
